@@ -119,6 +119,8 @@ func (c *cdbdriver) GetLocationByMap(ipnet *net.IPNet, mapID []byte, context Con
 		// Result with more specific mask cannot be used, there is no need to search
 		// for matching subnet in them.
 		maxMask uint8
+		// Subnets shorter than this belong to the other address family
+		minMask uint8
 		isv4    bool
 	)
 
@@ -138,6 +140,8 @@ func (c *cdbdriver) GetLocationByMap(ipnet *net.IPNet, mapID []byte, context Con
 	if ipnet.IP.To4() != nil {
 		// We only work with v6-mapped IPs
 		maxMask += 96
+		// an IPv6 subnet shorter than ::ffff:0:0/96 (e.g. ::/0) is not an IPv4 subnet
+		minMask = 96
 		isv4 = true
 	}
 	// maskLens DB key: "\000/"
@@ -172,7 +176,7 @@ func (c *cdbdriver) GetLocationByMap(ipnet *net.IPNet, mapID []byte, context Con
 	// NOTE: this assumes masks are from the most to the least specific as in:
 	// [128 120 96 56 0]
 	for _, mask := range maskLens {
-		if mask > maxMask {
+		if mask > maxMask || mask < minMask {
 			continue
 		}
 		// Finish creating the search key:
